@@ -835,7 +835,7 @@ DIMS_COMMON = ["roles:testparticle_type0", "roles:testparticle_type1", "roles:ma
                "variational:test_particle", "variational:megno", "options:safe_mode0", "options:keep_unsynchronized", "options:corrector",
                "options:kernel_or_coordinates", "options:adaptive_or_scales_nondefault", "options:G_softening", "time:dt_negative",
                "time:integrate", "time:integrate_eft0", "time:integrate_split", "time:integrate_reverse", "time:t_far_from_zero",
-               "callbacks:additional_forces", "callbacks:additional_forces_vel", "callbacks:heartbeat", "callbacks:pre", "callbacks:post", "callbacks:mercurius_L", "histories:archive_gap_reset", "histories:archive_gap_remove_step", "histories:archive_gap_switch_reset_step", "histories:archive_gap_reset_step",
+               "callbacks:additional_forces", "callbacks:additional_forces_vel", "callbacks:heartbeat", "callbacks:pre", "callbacks:post", "callbacks:mercurius_L",
                "callbacks:collision_resolve_named", "callbacks:collision_resolve_callable", "histories:rejected_first_steps",
                "histories:close_encounter_or_pericentre", "histories:unsynchronised_save", "geometry:moving_com", "geometry:hyperbolic_body",
                "geometry:shear_boundary_ghost_boxes", "geometry:nonsquare_rootboxes_face", "geometry:boundary_open", "geometry:boundary_periodic",
@@ -934,7 +934,28 @@ def triple_excluded(partial):
     return None
 
 
+_PE_CACHE = {}
+_RULES_BY = {}
+
+
 def pair_excluded(f, a, g, b):
+    k_ = (f, a, g, b)
+    if k_ in _PE_CACHE:
+        return _PE_CACHE[k_]
+    if not _RULES_BY:
+        for rf, rg, pred, reason in PAIR_RULES:
+            _RULES_BY.setdefault((rf, rg), []).append((pred, reason, False))
+            _RULES_BY.setdefault((rg, rf), []).append((pred, reason, True))
+    out = None
+    for pred, reason, swapped in _RULES_BY.get((f, g), ()):
+        if (pred(b, a) if swapped else pred(a, b)):
+            out = reason
+            break
+    _PE_CACHE[k_] = out
+    return out
+
+
+def _pair_excluded_uncached(f, a, g, b):
     for rf, rg, pred, reason in PAIR_RULES:
         if (rf, rg) == (f, g) and pred(a, b):
             return reason
@@ -953,22 +974,42 @@ def case_valid(case):
 
 
 def completable(factors, partial):
-    """is there a complete assignment extending `partial` that violates no pair rule?  (exact backtracking search)"""
-    names = [f for f in factors if f not in partial]
-
-    def rec(i, cur):
-        if i == len(names):
-            return True
-        f = names[i]
-        for v in factors[f]:
-            if all(not pair_excluded(f, v, g, cur[g]) for g in cur) and not triple_excluded(dict(cur, **{f: v})):
-                cur[f] = v
-                if rec(i + 1, cur):
-                    del cur[f]
-                    return True
-                del cur[f]
+    """is there a complete assignment extending `partial` that violates no pair / triple rule?  Exact search with
+    forward checking and smallest-domain-first ordering (plain depth-first search explodes on late conflicts)."""
+    if triple_excluded(partial):
         return False
-    return rec(0, dict(partial))
+    names0 = list(partial)
+    for i, f in enumerate(names0):
+        for g in names0[i + 1:]:
+            if pair_excluded(f, partial[f], g, partial[g]):
+                return False
+
+    def domains(cur):
+        dom = {}
+        for f in factors:
+            if f in cur:
+                continue
+            vals = [v for v in factors[f] if all(not pair_excluded(f, v, g, cur[g]) for g in cur) and not triple_excluded(dict(cur, **{f: v}))]
+            if not vals:
+                return None
+            dom[f] = vals
+        return dom
+
+    def rec(cur):
+        dom = domains(cur)
+        if dom is None:
+            return False
+        if not dom:
+            return True
+        f = min(dom, key=lambda x: len(dom[x]))
+        for v in dom[f]:
+            cur[f] = v
+            if rec(cur):
+                del cur[f]
+                return True
+            del cur[f]
+        return False
+    return rec(dict(partial))
 
 
 def all_pairs(factors):
